@@ -18,6 +18,7 @@ def conv(txt):
     txt = re.sub(r'(?<![0-9])-150(?![0-9])', '-1075', txt)
     txt = re.sub(r'(?<![0-9])150(?![0-9])', '1075', txt)
     txt = re.sub(r'(?<![0-9])127(?![0-9])', '1023', txt)
+    txt = re.sub(r'(?<![0-9])126(?![0-9])', '1022', txt)
     txt = re.sub(r'(?<![0-9])-24(?![0-9])', '-53', txt)
     txt = re.sub(r'(?<![0-9])24(?![0-9])', '53', txt)
     txt = re.sub(r'(?<![0-9])23(?![0-9])', '52', txt)
